@@ -86,6 +86,60 @@ def tree_classes(node, prefix=''):
     return out
 
 
+_NOISE_MODELS = []
+
+
+def noise_calls(m, node=None, graph=None, roles=None):
+    """Documented-pure calls made before the call under test, on the model in use AND on the shipped models: a result must
+    not depend on what was asked before (memo tables, shared caches).  The reference models are stateless, so any such
+    dependence shows up as a disagreement in the check that follows."""
+    if not _NOISE_MODELS:
+        from penman.model import Model
+        from penman.models.amr import model as amr
+        _NOISE_MODELS.extend([Model(), amr])
+    rs = set(roles or ())
+    if node is not None:
+        stack = [node]
+        while stack:
+            nd = stack.pop()
+            for r, x in nd[1]:
+                if r != '/':
+                    rs.add(r.split('~')[0])
+                if not is_atom(x):
+                    stack.append(x)
+    rs |= {r + '-of' for r in list(rs)} | {r[:-3] for r in rs if r.endswith('-of')}
+    for mm in [m] + _NOISE_MODELS:
+        for r in sorted(rs):
+            mm.has_role(r); mm.is_role_inverted(r); mm.invert_role(r); mm.canonicalize_role(r)
+            mm.canonical_order(r); mm.alphanumeric_order(r); mm.is_role_reifiable(r)
+    if graph is not None:
+        for mm in [m] + _NOISE_MODELS:
+            mm.errors(graph)
+        graph.variables(); graph.edges(); graph.attributes(); graph.reentrancies(); graph.instances()
+
+
+def churn_models(node):
+    """Create and drop short-lived models whose tables define every role of the tree (also the -of spellings) as primary,
+    and ask them about those roles: whatever they leave behind (caches keyed by object identity, class-level state) must
+    not leak into the model built next."""
+    from penman.model import Model
+    rs = set()
+    stack = [node]
+    while stack:
+        nd = stack.pop()
+        for r, x in nd[1]:
+            if r != '/':
+                rs.add(r.split('~')[0])
+            if not is_atom(x):
+                stack.append(x)
+    import re as _re
+    for variant in (rs, {r + '-of' for r in rs}, set()):
+        tmp = Model(roles={_re.escape(r): {} for r in variant if r}, normalizations={r: ':zz' for r in list(variant)[:2]})
+        for r in sorted(rs | {r + '-of' for r in rs}):
+            tmp.has_role(r); tmp.is_role_inverted(r); tmp.invert_role(r); tmp.canonicalize_role(r); tmp.canonical_order(r)
+        del tmp
+
+
 def fmt(node, indent=None, compact=False, meta=None):
     return penman.format(Tree(node, metadata=meta or {}), indent=indent, compact=compact)
 
